@@ -40,6 +40,9 @@
 (*          bin width below rmin lands in bin 0), "lossy_cover", "maxid_exclusive"     *)
 (*          are self-tests.  Cases are exported and replayed into the real code.      *)
 (*                                                                                  *)
+(* "big"    first lists of 10^5 .. 10^6 points as tilings of a small unit; the additivity   *)
+(*          law (PairAdditive, ScaleLaw) makes them decidable from the parts.          *)
+(*                                                                                  *)
 (* "reps"   the representation of every array / scalar argument, independently per   *)
 (*          argument, as a covering design (ChooseRep); exported and replayed.        *)
 (*                                                                                  *)
@@ -309,6 +312,41 @@ PairRefAccepted == (phase = "case" \/ (phase = "mech" /\ mech.i = 1)) =>
           VSum(PRefCounts(PRec)) = Cardinality({pr \in PPairs(PRec) :
                PEdgeCmp(PRec, pr[1], pr[2], 1) >= 0 /\ PEdgeCmp(PRec, pr[1], pr[2], Len(pc.edges)) < 0})
 
+\* additivity in the first list (the law behind the scale cases), every split point of every problem of the scope
+PairAdditive == (phase = "case" \/ (phase = "mech" /\ mech.i = 1)) =>
+    \A k \in 1..(PN1(PRec) - 1) : PAdditiveAt(PRec, k)
+
+\* =========================================================================================
+\* Part "big": first lists far beyond the enumerable scope, decided through the law.  A scale case is a small UNIT
+\* problem and a size n: the executed first list is the unit tiled to n points (n across and at block boundaries,
+\* unit lengths 3 and 7 divide none of 10^5, 2^16, 2^20).  ScaleLaw: on two tiles plus the remainder - small enough
+\* for TLC - the brute-force counts are 2 * unit + remainder; by induction (PairAdditive) the same holds for n.
+CONSTANTS ScaleSizes
+ScaleUnits ==
+    IF Lat = "gc"
+    THEN {[p1 |-> <<<<0, 0>>, <<0, 1>>, <<90, 0>>>>, p2 |-> <<<<0, -1>>, <<0, 2>>, <<90, 1>>, <<180, 0>>>>],
+          [p1 |-> <<<<0, 0>>, <<0, 2>>, <<0, -1>>, <<45, 0>>, <<90, -1>>, <<0, 1>>, <<180, 1>>>>, p2 |-> <<<<0, 1>>, <<0, -2>>, <<45, 1>>, <<90, 0>>, <<270, 0>>>>]}
+    ELSE {[p1 |-> <<<<1, 0, 0, 1>>, <<3, 4, 0, 5>>, <<2, -1, 2, 3>>>>, p2 |-> <<<<0, 0, 1, 1>>, <<4, 3, 0, 5>>, <<2, 3, 6, 7>>, <<-1, 0, 0, 1>>>>]}
+ScaleKinds(m, edges) == {<<>>, <<2>>, [i \in 1..m |-> 1 + (i % 2)]} \cup
+                        (IF Lat = "gc" THEN {[i \in 1..m |-> 1 + (i % 3)]} ELSE {})
+ChooseScaleCase ==
+    /\ phase = "big"
+    /\ \E u \in {x \in ScaleUnits : Scope = "t" \/ Len(x.p1) = 3} : \E bc \in {x \in BinChoices : Len(x.edges) = 3 \/ Lat = "rs"} : \E n \in ScaleSizes :
+        \E sc \in {x \in ScaleKinds(Len(u.p1), bc.edges) : Lat = "gc" \/ x = <<>> \/ HiChebOK(2, bc.edges[Len(bc.edges)])} :
+           pc' = [p2 |-> u.p2, p1 |-> u.p1, edges |-> bc.edges, below |-> bc.below, scale |-> sc]
+           /\ mech' = [i |-> n, counts |-> <<>>]
+    /\ phase' = "scalecase" /\ UNCHANGED <<hcalls, hcache, idsVars, coverVars>>
+ScaleLaw == phase = "scalecase" =>
+    LET m    == PN1(PRec)
+        rm   == mech.i % m
+        tsc  == IF Len(pc.scale) <= 1 THEN pc.scale ELSE pc.scale \o pc.scale \o SubSeq(pc.scale, 1, rm)
+        two  == [PRec EXCEPT !.p1 = pc.p1 \o pc.p1 \o SubSeq(pc.p1, 1, rm), !.scale = tsc]
+        one  == PRefCounts(PRec)
+        remc == PRefCounts(PPart(PRec, 1, rm))
+    IN /\ PEdgesOK(PRec)
+       /\ \A k \in {m} \cup (IF rm > 0 THEN {2 * m} ELSE {}) : PAdditiveAt(two, k)             \* at the tile boundaries
+       /\ PUnambiguous(PRec) => \A b \in 1..PNBin(PRec) : PRefCounts(two)[b] = 2 * one[b] + (IF rm > 0 THEN remc[b] ELSE 0)
+
 \* =========================================================================================
 \* Part "hist": one HTM object, the caller's coordinate buffers, and a history  (Overwrite ; Bincount)*.
 \* The object has NO abstract state: what a call may return is a function of the buffers' contents at the
@@ -386,8 +424,8 @@ Next ==
     \/ CoverChoose \/ CoverStep \/ CoverDone \/ CoverCase
     \/ ChooseP2 \/ ChooseP1 \/ ChooseBins \/ ChooseScale(TRUE) \/ MechStep \/ MechDone
     \/ HStart \/ HOverwrite \/ HBincount(TRUE)
-    \/ ChooseRep
-NextExport == ChooseRep \/ CoverCase \/ ChooseP2 \/ ChooseP1 \/ ChooseBins \/ ChooseScale(FALSE) \/ HStart \/ HOverwrite \/ HBincount(FALSE)
+    \/ ChooseRep \/ ChooseScaleCase
+NextExport == ChooseRep \/ ChooseScaleCase \/ CoverCase \/ ChooseP2 \/ ChooseP1 \/ ChooseBins \/ ChooseScale(FALSE) \/ HStart \/ HOverwrite \/ HBincount(FALSE)
 Spec == Init /\ [][Next]_vars
 
 Export ==
@@ -397,6 +435,9 @@ Export ==
     /\ (DoExport /\ phase = "hready" /\ Len(hcalls) = HistCalls) =>
           PrintT(<<"CASE", ToJson([kind |-> "history", lat |-> Lat, edges |-> pc.edges, scale |-> pc.scale,
                                    calls |-> [n \in DOMAIN hcalls |-> [p1 |-> hcalls[n].p1, p2 |-> hcalls[n].p2]]])>>)
+    /\ (DoExport /\ phase = "scalecase") =>
+          PrintT(<<"CASE", ToJson([kind |-> "scale", lat |-> Lat, p1 |-> pc.p1, p2 |-> pc.p2, edges |-> pc.edges, scale |-> pc.scale,
+                                   n |-> mech.i, tiles |-> mech.i \div Len(pc.p1), rem |-> mech.i % Len(pc.p1)])>>)
     /\ (DoExport /\ phase = "repcase") => PrintT(<<"CASE", ToJson([kind |-> "reps", entry |-> rp.entry, odd |-> rp.odd, row |-> rp.row])>>)
     /\ (DoExport /\ phase = "case") =>
           PrintT(<<"CASE", ToJson([kind |-> "pairs", lat |-> Lat, p1 |-> pc.p1, p2 |-> pc.p2, edges |-> pc.edges,
